@@ -36,8 +36,10 @@ type verifNode struct {
 func (n *verifNode) Tick()                                  {}
 func (n *verifNode) Campaign(ctx context.Context) error     { return nil }
 func (n *verifNode) Propose(ctx context.Context, data []byte) error {
+	verifrt.HarnessLock()
 	n.proposed++
 	n.log = append(n.log, data)
+	verifrt.HarnessUnlock()
 	n.proposals <- verifProposal{data}
 	return nil
 }
@@ -64,6 +66,7 @@ func verifRaftPartition(dim int, c verifIdxCfg) (*partition, *verifNode) {
 }
 
 func VerifC11Local() {
+	verifrt.RaceDetect(verifrt.Bound("race", 0) == 1)
 	callers := verifrt.IntIn("callers", 1, verifrt.Bound("maxcallers", 2))
 	verifrt.Preemptions(verifrt.Bound("preempt", 1))
 	cfg := verifIdxConfigs()[0]
@@ -160,6 +163,7 @@ func VerifC11Local() {
 // VerifC11Remote: owner not hosted locally: reachable and healthy, reachable
 // and failing, or unknown address. Success only if the owner acknowledged.
 func VerifC11Remote() {
+	verifrt.RaceDetect(verifrt.Bound("race", 0) == 1)
 	const local = uint64(1)
 	ds := verifDataset(local, 1, [][]uint64{{101}})
 	mode := verifrt.Choose("owner", 3) // 0 healthy, 1 failing, 2 unknown address (no cached client, not in the address book)
@@ -184,20 +188,21 @@ func VerifC11Remote() {
 	case 2:
 		err = ds.Remove(ctx, verifItemId(0))
 	}
-	acknowledged := mode == 0 && len(client.calls) == 1
+	acknowledged := mode == 0 && len(client.getCalls()) == 1
 	verifrt.Assert(verifrt.Implies(err == nil, acknowledged), "success-only-if-owner-acknowledged")
 	verifrt.Reach("remote-end")
 
 	// wrong dimension is rejected before anything is sent
 	client.calls = nil
 	err = ds.Insert(ctx, verifItemId(1), []float32{1, 2}, nil)
-	verifrt.Assert(err == DimensionMissmatchErr && len(client.calls) == 0, "dimension-mismatch-rejected-before-proposing")
+	verifrt.Assert(err == DimensionMissmatchErr && len(client.getCalls()) == 0, "dimension-mismatch-rejected-before-proposing")
 	err = ds.Update(ctx, verifItemId(1), []float32{}, nil)
-	verifrt.Assert(err == DimensionMissmatchErr && len(client.calls) == 0, "dimension-mismatch-rejected-before-proposing")
+	verifrt.Assert(err == DimensionMissmatchErr && len(client.getCalls()) == 0, "dimension-mismatch-rejected-before-proposing")
 }
 
 // VerifC11Batch: batch calls report an error for exactly the ids that failed.
 func VerifC11Batch() {
+	verifrt.RaceDetect(verifrt.Bound("race", 0) == 1)
 	const local = uint64(1)
 	verifrt.Preemptions(verifrt.Bound("preempt", 0))
 	ds := verifDataset(local, 1, [][]uint64{{local}})
@@ -251,7 +256,10 @@ func VerifC11Batch() {
 		return
 	}
 	// nothing of the wrong dimension may have been proposed
-	for _, data := range node.log {
+	verifrt.HarnessLock()
+	proposedLog := append([][]byte(nil), node.log...)
+	verifrt.HarnessUnlock()
+	for _, data := range proposedLog {
 		var ch pb.PartitionChange
 		if proto.Unmarshal(data, &ch) == nil {
 			for _, it := range ch.GetBatchItems() {
@@ -303,6 +311,7 @@ func VerifC11Batch() {
 // order. Every caller must receive the outcome of its own entry and nothing
 // else (a replica applies entries proposed through the other node as well).
 func VerifC11TwoNodes() {
+	verifrt.RaceDetect(verifrt.Bound("race", 0) == 1)
 	verifrt.Preemptions(verifrt.Bound("preempt", 1))
 	cfg := verifIdxConfigs()[0]
 	r1, n1 := verifRaftPartition(1, cfg)
